@@ -82,6 +82,9 @@ def case_strategy():
             inner_strategy().map(lambda i: ["type", i]), inner_strategy().map(lambda i: ["type", i]),
             # typing.Any inside the annotation: type[Any], type[list[Any]], type[dict[str, Any]] (counts as object)
             st.one_of(st.just(["type", ["anyT"]]), any_inside().map(lambda g: ["type", ["gen", g[1], g[2]]])),
+            # a union as an ARGUMENT of a generic inside the annotation: type[list[A | B]] (the aimed call passes the same)
+            st.lists(inner_strategy(0), min_size=2, max_size=2, unique_by=repr).map(
+                lambda ms: ["type", ["gen", "list", [["union", ms]]]]),
             # a union inside the annotation: type[A | B], type[Union[A, list[B]]]
             st.lists(inner_strategy(1), min_size=2, max_size=2, unique_by=repr).map(lambda ms: ["type", ["union", ms]]),
             st.just(["type"]), st.just(["obj"]), st.sampled_from([["cls", "K0"], ["cls", "K1"], ["cls", "int"], ["cls", "ABCMeta"]]))
@@ -207,6 +210,8 @@ def sub(x, t, env):
     """is type x a subtype of type t?  True / False / None (unspecified)"""
     if t[0] == "obj":
         return True
+    if R.canon(x) == R.canon(t):
+        return True  # every type is a subtype of itself
     if t[0] == "union":
         vals = [sub(x, m, env) for m in t[1]]
         return True if any(v is True for v in vals) else (None if any(v is None for v in vals) else False)
